@@ -470,3 +470,60 @@ let c07_project_rejected (expected : S.t) (observed : S.t) : S.t =
               | _, x -> x) ers ors)
         | _, x -> x) elays olays)
   | _, x -> x
+
+(* ---- C02: the strategies agree ---- *)
+let strip_fa path = List.map (function S.L (S.A "fa" :: _) -> S.L [S.A "fa"] | x -> x) path
+
+let run_c02 (input : S.t) (observed : S.t) : S.t * string =
+  let secs = match input with S.L (S.A "exec" :: l) -> l | _ -> failwith "c02: input" in
+  let asgs = find_section "assignments" secs in
+  let model_run asg =
+    match asg with
+    | S.L (S.A "asg" :: _ :: pairs) ->
+      (* reflection nodes are answered, in the model, as resolver nodes: that they agree is the property *)
+      let strat = S.L (S.A "strat" :: List.map (function
+          | S.L [t; S.A s] -> S.L [t; S.A (if s = "A" then "A" else "R")]
+          | x -> x) pairs) in
+      let any = List.exists (function S.L [_; S.A "A"] -> true | _ -> false) pairs in
+      let secs' = List.map (function
+          | S.L (S.A "strat" :: _) -> strat
+          | S.L (S.A "any" :: _) -> S.L [S.A "any"; S.A (if any then "1" else "0")]
+          | x -> x) secs in
+      let p = parse (S.L (S.A "exec" :: secs')) in
+      (match run_model p with
+       | S.L outs ->
+         S.L (S.A "run" :: List.filter_map (function
+             | S.L [S.A "resp"; data; S.L errs; _] ->
+               let paths = sorted_sexps (List.map (function S.L (S.A "e" :: S.L path :: _) -> S.L (strip_fa path) | x -> x) errs) in
+               Some (S.L [S.A "resp"; (match data with S.A "null" -> S.A "nodata" | d -> d); S.L paths])
+             | S.L [S.A "rejected"] -> Some (S.L [S.A "rejected"])
+             | _ -> None) outs)
+       | x -> x)
+    | _ -> failwith "c02: assignment" in
+  let expected = S.L (S.A "runs" :: List.map model_run asgs) in
+  (* data that does not fit its declared type (a non-list where a list is declared, a value a leaf type
+     cannot take) is interpreted by the application's AnyResolver / by reflection on the Go value, not
+     by ggql: such cases are outside the feature set the strategies share *)
+  let ill_typed =
+    let p = parse (S.L (S.A "exec" :: secs)) in
+    (match run_model p with
+     | S.L outs -> List.exists (function
+         | S.L [S.A "resp"; _; S.L errs; _] ->
+           List.exists (function S.L [S.A "e"; _; _; S.A k] -> List.mem k ["notlist"; "nth"; "notleaf"; "coerceout"; "reflect"] | _ -> false) errs
+         | _ -> false) outs
+     | _ -> false) in
+  let verdict =
+    if ill_typed then "holds-outside-the-common-feature-set-(ill-typed-data)" else
+    match observed with
+    | S.L (S.A "runs" :: (first :: _ as runs)) ->
+      if List.exists (function S.L (S.A "panic" :: _) -> true | _ -> false) runs then "fails:a-strategy-panicked"
+      else begin
+        let names = [| "all-resolver"; "all-any"; "all-reflection-registered"; "all-reflection-discovered"; "mix-resolver-any"; "mix-resolver-reflection"; "mix-resolver-reflection-discovered" |] in
+        let rec find i = function
+          | [] -> "holds"
+          | r :: rest -> if S.to_string r <> S.to_string first then "fails:strategies-disagree:" ^ (if i < Array.length names then names.(i) else string_of_int i)
+            else find (i + 1) rest in
+        find 0 runs
+      end
+    | _ -> "fails:shape" in
+  (expected, verdict)
